@@ -43,12 +43,15 @@ package sonic
 //@   assert call io.Reader.Read: alias(arg1, b[readBytes:])
 //@   assert call cb: old(readBytes) <= arg1 && arg1 <= len(b) && (arg0 == nil && readAll ==> arg1 == len(b))
 //@   remember after call io.Reader.Read: moved = result1 == nil
+//@   remember after call io.Reader.Read: kn := result0
+//@   assert call cb: [C02 exact-count] arg1 == old(readBytes) + kn
 //@   assert call cb: [C02 no-swallowed-error] arg0 == nil ==> moved
 //@   consumes cb unless aArmedR(a)
 //@   ensures [armed] invoked(cb) == 0 ==> a.slot.Handlers[0] == a.readReactor.onRead &&
 //@           readBytes <= a.readReactor.readSoFar && a.readReactor.readSoFar <= len(b) &&
 //@           a.readReactor.b == b && a.readReactor.readAll == readAll
 //@   ensures [work-left] invoked(cb) == 0 && old(readBytes) < len(b) ==> a.readReactor.readSoFar < len(b)
+//@   ensures [progress-recorded] invoked(cb) == 0 ==> a.readReactor.readSoFar == old(readBytes) + kn
 
 //@ func (*asyncAdapterReadReactor).onRead
 //@   prop C01, C02
@@ -90,12 +93,15 @@ package sonic
 //@   assert call io.Writer.Write: alias(arg1, b[writtenBytes:])
 //@   assert call cb: old(writtenBytes) <= arg1 && arg1 <= len(b) && (arg0 == nil && writeAll ==> arg1 == len(b))
 //@   remember after call io.Writer.Write: moved = result1 == nil
+//@   remember after call io.Writer.Write: kn := result0
+//@   assert call cb: [C02 exact-count] arg1 == old(writtenBytes) + kn
 //@   assert call cb: [C02 no-swallowed-error] arg0 == nil ==> moved
 //@   consumes cb unless aArmedW(a)
 //@   ensures [armed] invoked(cb) == 0 ==> a.slot.Handlers[1] == a.writeReactor.onWrite &&
 //@           writtenBytes <= a.writeReactor.wroteSoFar && a.writeReactor.wroteSoFar <= len(b) &&
 //@           a.writeReactor.b == b && a.writeReactor.writeAll == writeAll
 //@   ensures [work-left] invoked(cb) == 0 && old(writtenBytes) < len(b) ==> a.writeReactor.wroteSoFar < len(b)
+//@   ensures [progress-recorded] invoked(cb) == 0 ==> a.writeReactor.wroteSoFar == old(writtenBytes) + kn
 
 //@ func (*asyncAdapterWriteReactor).onWrite
 //@   prop C01, C02
